@@ -284,6 +284,47 @@ func runConc(r *lib.Run, idx int, base string) {
 		checkQuiescent(r, s, after, true, fmt.Sprintf("barrier after concurrent round %d (%d goroutines)", round, workers), wit)
 		r.Count("concurrent_rounds", 1)
 	}
+	// same ids again and again from many goroutines, with long and short values in turn (the validation pool re-stores
+	// content it is offered repeatedly): whatever is counted for a re-put, the usage figure must not fall below what is held
+	{
+		var pool [][32]byte
+		for i := 0; i < 4; i++ {
+			var id [32]byte
+			rng.Read(id[:])
+			id[0] = node[0] // close to the node: inside any radius earlier prunes have left
+			pool = append(pool, id)
+		}
+		for _, id := range pool {
+			_ = s.st.Put(nil, id[:], make([]byte, five-64))
+		}
+		var wg sync.WaitGroup
+		for w := 0; w < 8; w++ {
+			wg.Add(1)
+			wrng := rand.New(rand.NewSource(rng.Int63()))
+			go func() {
+				defer wg.Done()
+				for i := 0; i < 12; i++ {
+					id := pool[wrng.Intn(len(pool))]
+					n := 100 + wrng.Intn(200)
+					if wrng.Intn(2) == 0 {
+						n = five - 64 - wrng.Intn(1000)
+					}
+					err := s.st.Put(nil, id[:], make([]byte, n))
+					r.Eval(1)
+					if err != nil && !errors.Is(err, storage.ErrInsufficientRadius) {
+						putErrs.Add(1)
+						firstErr.CompareAndSwap(nil, err.Error())
+					}
+				}
+			}()
+		}
+		wg.Wait()
+		after, serr := storeutil.Scan(s.db)
+		if serr == nil {
+			checkQuiescent(r, s, after, true, "barrier after concurrent re-puts of four ids with long and short values", wit)
+			r.Count("concurrent_reput_rounds", 1)
+		}
+	}
 	if n := putErrs.Load(); n > 0 {
 		r.Violation("put-error-concurrent", fmt.Sprintf("%d concurrent puts returned an unexpected error, first: %v", n, firstErr.Load()), wit())
 	}
